@@ -50,7 +50,13 @@ func GenPush(t *rapid.T, via string) PushCase {
 	c := PushCase{Via: via}
 	nl := rapid.SampledFrom([]int{1, 2, 2, 3, 3, 4}).Draw(t, "nlayers")
 	for i := 0; i < nl; i++ {
-		c.Layers = append(c.Layers, LayerSpec{Size: rapid.SampledFrom([]int{1, 5, 64, 100, 257}).Draw(t, "size"), Seed: uint32(rapid.IntRange(0, 99).Draw(t, "seed"))})
+		sizes := []int{1, 5, 64, 100, 257}
+		if via == "legacy" {
+			// zero-length layers (an empty template or license) exist in the legacy store; the new client's cache treats an
+			// empty file as absent, so a model with one cannot be in it
+			sizes = append(sizes, 0)
+		}
+		c.Layers = append(c.Layers, LayerSpec{Size: rapid.SampledFrom(sizes).Draw(t, "size"), Seed: uint32(rapid.IntRange(0, 99).Draw(t, "seed"))})
 	}
 	if rapid.IntRange(0, 2).Draw(t, "hasconfig") == 0 {
 		c.Config = &LayerSpec{Size: rapid.SampledFrom([]int{1, 30}).Draw(t, "cfgsize"), Seed: uint32(rapid.IntRange(0, 99).Draw(t, "cfgseed"))}
